@@ -6,6 +6,7 @@
 From Coq Require Import List NArith Bool Arith. Import ListNotations.
 From WV Require Import Gen.Ops Model.Common Model.IR Model.Arena Model.ModuleM Model.GC Proofs.C07L.
 From WV Require Proofs.GC.
+From WV Require Import Model.ParseM Model.EmitM Proofs.Totality Proofs.GcDeclare.
 Local Open Scope nat_scope.
 
 (* the worklist terminates within |entities| + 2 steps and computes EXACTLY the reachable set *)
@@ -27,15 +28,35 @@ Theorem c07_precise : forall m u, used m = Ok u ->
                           (forall y, In y u -> fst y = S_memory -> y = x) /\ (exists d, In (S_data, d) u))).
 Proof. exact used_is_reach. Qed.
 
-(* the pass keeps exactly the used entities of every kind (nothing unreachable survives) *)
-Theorem c07_sweep_exact : forall m m', gc m = Ok m' -> forall u, used m = Ok u ->
-  (forall id, contains (m_funcs m') (N.to_nat id) = true <-> (contains (m_funcs m) (N.to_nat id) = true /\ mem_ent (S_func, id) u = true)) /\
-  (forall id, contains (m_tables m') (N.to_nat id) = true <-> (contains (m_tables m) (N.to_nat id) = true /\ mem_ent (S_table, id) u = true)) /\
-  (forall id, contains (m_globals m') (N.to_nat id) = true <-> (contains (m_globals m) (N.to_nat id) = true /\ mem_ent (S_global, id) u = true)) /\
-  (forall id, contains (m_memories m') (N.to_nat id) = true <-> (contains (m_memories m) (N.to_nat id) = true /\ mem_ent (S_memory, id) u = true)) /\
-  (forall id, contains (m_data m') (N.to_nat id) = true <-> (contains (m_data m) (N.to_nat id) = true /\ mem_ent (S_data, id) u = true)) /\
-  (forall id, contains (m_elements m') (N.to_nat id) = true <-> (contains (m_elements m) (N.to_nat id) = true /\ mem_ent (S_elem, id) u = true)).
-Proof. exact G.gc_keeps_exactly_used. Qed.
+(* the pass keeps exactly the used entities of every kind (nothing unreachable survives); the only other entity of the result is the
+   declared element segment the last step may add (id = the next id of the element arena): a root by definition, listing live functions *)
+Theorem c07_sweep_exact :
+  forall m m' : wir,
+         gc m = Ok m' ->
+         forall u : list ent,
+         used m = Ok u ->
+         (forall id : N,
+          contains (m_funcs m') (N.to_nat id) = true <->
+          contains (m_funcs m) (N.to_nat id) = true /\ mem_ent (S_func, id) u = true) /\
+         (forall id : N,
+          contains (m_tables m') (N.to_nat id) = true <->
+          contains (m_tables m) (N.to_nat id) = true /\ mem_ent (S_table, id) u = true) /\
+         (forall id : N,
+          contains (m_globals m') (N.to_nat id) = true <->
+          contains (m_globals m) (N.to_nat id) = true /\ mem_ent (S_global, id) u = true) /\
+         (forall id : N,
+          contains (m_memories m') (N.to_nat id) = true <->
+          contains (m_memories m) (N.to_nat id) = true /\ mem_ent (S_memory, id) u = true) /\
+         (forall id : N,
+          contains (m_data m') (N.to_nat id) = true <->
+          contains (m_data m) (N.to_nat id) = true /\ mem_ent (S_data, id) u = true) /\
+         (forall id : N,
+          contains (m_elements m') (N.to_nat id) = true <->
+          contains (m_elements m) (N.to_nat id) = true /\ mem_ent (S_elem, id) u = true \/
+          id = anext (m_elements m) /\
+          (exists fs : list N,
+             fs <> [] /\ aget (m_elements m') id = Some (decl_seg fs) /\ (forall f : N, In f fs -> liveF m' f))).
+Proof. exact gc_keeps_exactly_used_full. Qed.
 
 (* idempotence at the level of sets: recomputing reachability on the graph restricted to the kept
    set (deleted entities are gone) yields the same set again, so a second run deletes nothing *)
@@ -50,8 +71,23 @@ Proof. exact G.gc_idempotent_sets. Qed.
 (* the source of the used-analysis and of the sweep still has the control skeleton the model was written against
    (regenerated Gen/GcSkeleton.v = the pinned copy in Proofs/GcPinned.v): roots, edges, residue, sweep order *)
 From WV Require Import Gen.GcSkeleton Proofs.GcPinned.
-Theorem c07_source_skeleton : used_new_skeleton = expected_used_new /\ used_visitor_skeleton = expected_used_visitor /\ gc_run_skeleton = expected_gc_run.
+Theorem c07_source_skeleton : used_new_skeleton = expected_used_new /\ used_visitor_skeleton = expected_used_visitor /\ gc_run_skeleton = expected_gc_run /\ gc_declare_skeleton = expected_gc_declare.
 Proof. exact used_skeleton_pinned. Qed.
+
+(* ---- the declared segment added by the last step is a root of the used-analysis and survives a further sweep; running the declaration step
+   again adds nothing (so a second run of the pass changes nothing once its sweep changes nothing) *)
+Theorem c07_new_segment_is_root :
+  forall (m m' m2 : wir) (id : N) (fs : list N),
+         gc m = Ok m' ->
+         aget (m_elements m') id = Some (decl_seg fs) ->
+         (forall rs : list ent, roots m' = Ok rs -> In (S_elem, id) rs) /\
+         (gc_sweep m' = Ok m2 -> aget (m_elements m2) id = Some (decl_seg fs)).
+Proof. exact gc_new_segment_is_root. Qed.
+Theorem c07_declare_idempotent :
+  forall m m1 : wir,
+         dead_in_range (m_elements m) ->
+         gc m = Ok m1 -> declare_referenced_funcs m1 = Ok m1 /\ (gc_sweep m1 = Ok m1 -> gc m1 = Ok m1).
+Proof. exact gc_declare_idempotent_partial. Qed.
 
 Print Assumptions c07_used_is_reachable_set.
 Print Assumptions c07_no_fuel_exhaustion.
@@ -59,3 +95,5 @@ Print Assumptions c07_precise.
 Print Assumptions c07_sweep_exact.
 Print Assumptions c07_idempotent_sets.
 Print Assumptions c07_source_skeleton.
+Print Assumptions c07_new_segment_is_root.
+Print Assumptions c07_declare_idempotent.
